@@ -8,7 +8,9 @@ C38 driver.  Case lines (harness/c38/main.go):
 (the harness prints `watcher-not-closed` instead of a sequence when the loop ignored a scripted watcher failure;
 the model never does, so that is a correspondence mismatch)
 
-contents: `a` `b` `c`, `-` = file missing.  ops: w:<c> r:<c> d (file state changes), e E (notification for the
+contents: `a` `b` `c`, `-` = file missing.  ops: w:<c> r:<c> m:<c> p:<c> d (file state changes; m and p keep
+the previous modification time — the model's file state is the content only, theorem
+`reload_decision_ignores_metadata`), e E (notification for the
 config file), o (ignored notification), x:<kind> (watcher failure).
 Model output: the callback's content sequence predicted by the model of the code variant the regenerated facts
 say the source is (`codeVariant`) and the callback instants in 100 ms buckets `(t+10)/100`; `intime` is always 1 in
@@ -26,6 +28,8 @@ def parseOp (tok : String) : Option (Nat × Op String × Bool) :=   -- (time, op
   match tok.splitOn ":" with
   | [t, "w", c] => do pure (← t.toNat?, .write c, true)
   | [t, "r", c] => do pure (← t.toNat?, .write c, true)
+  | [t, "m", c] => do pure (← t.toNat?, .write c, true)   -- in place, previous mtime restored: a content change
+  | [t, "p", c] => do pure (← t.toNat?, .write c, true)   -- atomic replace carrying the old mtime
   | [t, "d"] => do pure (← t.toNat?, .write "-", true)
   | [t, "e"] => do pure (← t.toNat?, .event, false)
   | [t, "E"] => do pure (← t.toNat?, .event, false)
